@@ -85,7 +85,16 @@ def scenarios():
     s5 = [blk("g1", tx("update", a="g3", v="g3", f=1, c=1000, r=0), tx("update", a="g2", v="g2", f=1))] + [blk("g1"), blk("g1")] \
         + [blk("g1", *[tx("dadd", a=d, v="g3", x=100) for d in ("u1", "u2", "u3", "g1", "g2")]),
            blk("g1", tx("dadd", a="u1", v="g2", x=100), tx("dadd", a="u2", v="g2", x=100))] + [blk("g1") for _ in range(11)]
-    return [s1, s2, s3, s4, s5, check_coverage_scenario()]
+    # unbinding at the boundaries of the minimum delegation (10 LU): of four delegations of 100 LU to g2 the delegators take
+    # back 100 (nothing left), 95 (the rest is below the minimum: the take-effect handler forces a full withdrawal), 90
+    # (exactly the minimum is left) and 85; the withdrawals are released at block 19
+    s6 = [blk("g1", tx("update", a="g2", v="g2", f=1, c=1000))] + [blk("g1"), blk("g1")] \
+        + [blk("g1", *[tx("dadd", a=d, v="g2", x=100) for d in ("u1", "u2", "u3", "g1")])] + [blk("g1") for _ in range(3)] \
+        + [blk("g1", tx("dsub", a="u1", v="g2", x=100), tx("dsub", a="u2", v="g2", x=95), tx("dsub", a="u3", v="g2", x=90),
+               tx("dsub", a="g1", v="g2", x=85))] + [blk("g1") for _ in range(4)] \
+        + [blk("g1", tx("dadd", a="u3", v="g2", x=95))] \
+        + [blk("g1") for _ in range(7)]   # (a delegation whose payload bytes equal those of the unbinding that was enlarged)
+    return [s1, s2, s3, s4, s5, check_coverage_scenario(), s6]
 
 
 def check_coverage_scenario():
